@@ -49,6 +49,18 @@ class StructItem:
         self.file, self.name, self.fields, self.tuple_fields, self.line = file, name, fields, tuple_fields, line
 
 
+class EnumItem:
+    """variants: list of (name, kind, fields) with kind in 'unit' | 'tuple' | 'struct'; fields = [(name or None, type)]"""
+
+    def __init__(self, file, name, variants, derives, line):
+        self.file, self.name, self.variants, self.derives, self.line = file, name, variants, derives, line
+
+
+class ConstItem:
+    def __init__(self, file, name, ty, expr, line):
+        self.file, self.name, self.ty, self.expr, self.line = file, name, ty, expr, line
+
+
 ASSIGN_OPS = ['=', '+=', '-=', '*=', '/=', '%=', '^=', '|=', '&=', '<<=', '>>=']
 BINOP_PREC = [
     ['||'], ['&&'], ['==', '!=', '<', '>', '<=', '>='], ['|'], ['^'], ['&'], ['<<', '>>'], ['+', '-'], ['*', '/', '%'],
@@ -58,6 +70,7 @@ BINOP_PREC = [
 class Parser:
     def __init__(self, toks, file, pos=0, fn=None):
         self.toks, self.file, self.i, self.fn = toks, file, pos, fn
+        self.enums, self.consts, self.glob_uses = [], [], []
 
     # -- token helpers ------------------------------------------------------------------------
     def err(self, msg, tok=None):
@@ -258,6 +271,65 @@ class Parser:
                 self.expect('=')
                 assoc[aname] = self.type_()
                 self.expect(';')
+            elif w == 'enum' and owner is None:
+                line = self.peek().line
+                self.i += 1
+                name = self.ident()
+                if self.at('<'):
+                    self.err('generic enums are not supported')
+                self.expect('{')
+                variants = []
+                while not self.at('}'):
+                    self.skip_attrs()
+                    vname = self.ident()
+                    if self.at('('):
+                        self.i += 1
+                        fs = []
+                        while not self.at(')'):
+                            self.skip_attrs(); self.skip_vis()
+                            fs.append((None, self.type_()))
+                            if not self.eat(','): break
+                        self.expect(')')
+                        variants.append((vname, 'tuple', fs))
+                    elif self.at('{'):
+                        self.i += 1
+                        fs = []
+                        while not self.at('}'):
+                            self.skip_attrs(); self.skip_vis()
+                            fname = self.ident(); self.expect(':')
+                            fs.append((fname, self.type_()))
+                            if not self.eat(','): break
+                        self.expect('}')
+                        variants.append((vname, 'struct', fs))
+                    else:
+                        if self.at('='):
+                            self.err('enum discriminants are not supported')
+                        variants.append((vname, 'unit', []))
+                    if not self.eat(','): break
+                self.expect('}')
+                derives = [a for a in attrs if 'derive' in a]
+                if not is_test:
+                    self.enums.append(EnumItem(self.file, name, variants, ' '.join(derives), line))
+            elif w == 'const' and owner is None and self.peek(1).kind == 'id' and self.at(':', 2):
+                line = self.peek().line
+                self.i += 1
+                name = self.ident()
+                self.expect(':')
+                ty = self.type_()
+                self.expect('=')
+                ex = self.expr()
+                self.expect(';')
+                if not is_test:
+                    self.consts.append(ConstItem(self.file, name, ty, ex, line))
+            elif w == 'use':
+                start = self.i
+                self.skip_to_semi()
+                for k in range(start, self.i - 2):
+                    a, b, c = self.toks[k], self.toks[k + 1], self.toks[k + 2]
+                    if a.kind == 'id' and b.kind == 'p' and b.val == '::' and c.kind == 'p' and c.val == '*' and a.val[0].isupper():
+                        self.glob_uses.append(a.val)
+                    if a.kind == 'id' and b.kind == 'p' and b.val == '::' and c.kind == 'id' and a.val[0].isupper() and c.val[0].isupper():
+                        self.glob_uses.append(a.val + '::' + c.val)   # `use Enum::Variant;`
             elif w in ('use', 'type', 'const', 'static', 'extern'):
                 self.skip_to_semi()
             elif w in ('enum', 'trait', 'union'):
@@ -626,6 +698,9 @@ class Parser:
         if t.kind == 'str':
             self.i += 1
             return N('PLit', line, lit='str', val=t.val)
+        if t.kind == 'char':
+            self.i += 1
+            return N('PLit', line, lit='char', val=t.val)
         if t.kind == 'id':
             if t.val == '_':
                 self.i += 1
@@ -645,11 +720,15 @@ class Parser:
                 segs.append(self.ident())
             if self.eat('('):
                 elems = []
+                rest = False
                 while not self.at(')'):
-                    elems.append(self.pattern())
+                    if self.eat('..'):
+                        rest = True
+                    else:
+                        elems.append(self.pattern())
                     if not self.eat(','): break
                 self.expect(')')
-                return N('PTupleStruct', line, segs=segs, elems=elems)
+                return N('PTupleStruct', line, segs=segs, elems=elems, rest=rest)
             if self.at('{'):
                 self.i += 1
                 fields, rest = [], False
@@ -984,8 +1063,18 @@ class Parser:
         if not (t.kind == 'p' and t.val in ('(', '[', '{')):
             self.err('expected macro arguments')
         close = {'(': ')', '[': ']', '{': '}'}[t.val]
+        if name == 'matches':
+            self.i += 1
+            scrut = self.expr()
+            self.expect(',')
+            pat = self.pattern()
+            if self.at_kw('if'):
+                self.err('matches! with a guard is not supported')
+            self.eat(',')
+            self.expect(close)
+            return N('Macro', line, name=name, args=[scrut], repeat=None, pat=pat)
         if name in ('panic', 'assert', 'assert_eq', 'assert_ne', 'debug_assert', 'debug_assert_eq', 'unreachable', 'vec', 'format',
-                    'todo', 'unimplemented'):
+                    'todo', 'unimplemented', 'write', 'writeln'):
             self.i += 1
             args = []
             repeat = None
@@ -1068,4 +1157,6 @@ def parse_file(path, relname):
     toks = tokenize(src, relname)
     p = Parser(toks, relname)
     fns, structs = p.scan_items()
-    return src, fns, structs
+    for f in fns:
+        f.glob_uses = p.glob_uses
+    return src, fns, structs, p.enums, p.consts
